@@ -75,6 +75,10 @@ class Session:
                     ops.append(['peer', i, k])
                 ops.append(['peerq', i, 'reply'])
             ops.append(['peer', -1, 'reply'])
+            if not any(q == (-1, 'bigsig') for q in self.queued):
+                # a 3 KB unrelated signal written (unread) ahead of later replies: a blocking wait then wakes up at least
+                # once without its reply (the transport reads 2048 bytes per iteration)
+                ops.append(['peerq', -1, 'bigsig'])
             ops.append(['close'])
         ops.append(['advance', 1500])
         ops.append(['advance', 6000])
@@ -116,7 +120,9 @@ class Session:
     def peer_msg(self, i, kind):
         self.peer_serial += 1
         rs = self.calls[i]['serial'] if i in self.calls else 99999
-        if kind == 'reply':
+        if kind == 'bigsig':
+            m = R.signal(self.peer_serial, '/s', 's.s', 'Big', [R.S('b' * 3000)])
+        elif kind == 'reply':
             m = R.method_return(self.peer_serial, rs, None, [R.U(1)])
         else:
             m = R.error(self.peer_serial, rs, 'peer.Err', None, [R.S('e')])
@@ -323,7 +329,8 @@ def wrap_scenario(ctx):
 def run(ctx):
     quick = ctx.tier == 'quick'
     depth = 5 if quick else 7
-    st = explore.bfs(ctx, FACTORY, {'ncalls': 2 if quick else 3}, max_depth=depth, ops_chunk=8)
+    with ctx.sub_budget(0.45):      # leave at least half of the time to the thread part
+        st = explore.bfs(ctx, FACTORY, {'ncalls': 2 if quick else 3}, max_depth=depth, ops_chunk=8)
     serials = wrap_scenario(ctx)
     thr = run_threads(ctx)
     ctx.coverage.update({
